@@ -24,7 +24,7 @@ ASSUMPTIONS = [
     "values contain no blanks at their edges; GTF-style values are free of ; \" , and control characters",
 ]
 
-ESC_CHARS = ["\t", "\n", "\r", "%", ";", "=", "&", ",", "\x00", "\x01", "\x1f", "\x7f"]
+ESC_CHARS = ["\t", "\n", "\r", "%", ";", "=", "&", ",", "\x00", "\x01", "\x1f", "\x7f", "q w"]       # the last: nothing to escape - a second word
 # GTF text has no escaping: these characters are plain data there (and so is a percent sequence)
 RAW_GTF = ["=", "&", "%", "+", "%3B", "a=b c=d", "x  y"]          # the last: two consecutive blanks inside a value
 KEYS = ["ID", "Name", "k3", "note_4"]
@@ -124,6 +124,12 @@ def body(ch, ctx):
     printed = str(f)
     ctx.check(printed == line, "print-differs", dict(sig, esc=esc is not None, flag=any(not v for _, v in items)),
               line=line, printed=printed)
+    # the same line parsed with the dialect handed over (what every file reader does after its dialect is settled)
+    if nparts >= 1:
+        h = feature_from_line(line, dialect=dict(f.dialect), keep_order=True)
+        h_attrs = G.as_plain(h.attributes)
+        ctx.check(list(h_attrs.items()) == list(got_attrs.items()) and str(h) == printed, "parse-with-supplied-dialect-differs",
+                  dict(sig, esc=esc is not None), line=line, inferred=list(got_attrs.items()), supplied=list(h_attrs.items()), printed=str(h))
     outcome = [d.style, nparts > 1, esc is not None, bool(extras)]
     if not extras:
         spaced = " ".join(list(cols) + ([attrs_text] if attrs_text else []))
